@@ -97,15 +97,95 @@ def fixture_case(ctx, i):
             "nameCfg": {}}
 
 
+TINY = None
+
+
+def tiny_schema():
+    """the fixed schema of Gen_C01.tla"""
+    global TINY
+    if TINY is None:
+        N, NN, L = G.named, G.nn, G.lst
+        TINY = [SG.tdef("object", "Query", fields=[SG.fdef("n", N("N")), SG.fdef("a", N("A")), SG.fdef("l", NN(L(NN(N("N"))))), SG.fdef("s", N("String"))]),
+                SG.tdef("interface", "N", fields=[SG.fdef("id", NN(N("ID"))), SG.fdef("n", N("N"))]),
+                SG.tdef("object", "A", interfaces=["N"], fields=[SG.fdef("id", NN(N("ID"))), SG.fdef("n", N("N")), SG.fdef("v", N("Int")), SG.fdef("o", N("A"))]),
+                SG.tdef("object", "B", interfaces=["N"], fields=[SG.fdef("id", NN(N("ID"))), SG.fdef("n", N("N")), SG.fdef("w", NN(N("String")))])]
+    return TINY
+
+
+COND = {"none": [], "skipA": [("skip", G.v_var("a"))], "includeA": [("include", G.v_var("a"))], "skipB": [("skip", G.v_var("b"))],
+        "includeB": [("include", G.v_var("b"))], "skipTrue": [("skip", {"k": "bool", "v": True})], "includeFalse": [("include", {"k": "bool", "v": False})]}
+FRAG_TEXT = {"FN": ("N", lambda: [G.field("id"), G.inline([G.field("v")], "A", [])]),
+             "FA": ("A", lambda: [G.field("v"), G.field("o", sel=[G.field("id")])])}
+
+
+def doc_of_nodes(nodes):
+    """flat node list of Gen_C01 (1-based parent indices, 0 = root) -> nested document (plumbing)"""
+    built = []
+    root = []
+    used_vars, used_frags = set(), set()
+    for nd in nodes:
+        dirs = []
+        for dn, v in COND[nd["cond"]]:
+            dirs.append(G.directive(dn, [G.arg("if", copy.deepcopy(v))]))
+            if v.get("k") == "var":
+                used_vars.add(v["n"])
+        if nd["k"] == "field":
+            x = G.field(nd["name"], nd["alias"] or None, None, dirs, None)
+        elif nd["k"] == "inline":
+            x = G.inline([], nd["on"] or None, dirs)
+        else:
+            x = G.spread(nd["name"], dirs)
+            used_frags.add(nd["name"])
+        built.append(x)
+        parent = root if nd["p"] == 0 else built[nd["p"] - 1]
+        if nd["p"] != 0:
+            if parent["k"] == "field":
+                parent["hasSel"] = True
+            parent = parent["sel"]
+        parent.append(x)
+    defs = [G.op("Op", root, "query", [G.vardef(v, G.nn(G.named("Boolean"))) for v in sorted(used_vars)])]
+    for f in sorted(used_frags):
+        on, mk = FRAG_TEXT[f]
+        defs.append(G.frag(f, mk(), on))
+    return {"defs": defs}
+
+
+def enumerated_batches(ctx, res, per=30):
+    """spec -> impl: every document Gen_C01.tla's builder reaches, batched into projects of `per` operation files"""
+    g = vlib.tlc("Gen_C01", "Gen_C01_quick.cfg" if ctx.quick else "Gen_C01_thorough.cfg", workdir=ctx.work, workers=8, timeout=1800, xmx="6g")
+    res.add_tlc(g)
+    cases = g.tagged("CASE")
+    total = len(cases)
+    keep = 6000 if ctx.quick else 90000
+    if total > keep:
+        # a seed-dependent systematic sample (every document is reached over the seeds)
+        step = -(-total // keep)
+        cases = [c for i, c in enumerate(cases) if i % step == ctx.seed % step]
+    docs = [doc_of_nodes(c["nodes"]) for c in cases]
+    cfg = {"schema": "./schema/*.graphql", "documents": "./ops/*.graphql", "extensions": {"nitrogql": {"generate": {"schemaOutput": "./gen/schema.d.ts"}}}}
+    out = []
+    for b in range(0, len(docs), per):
+        out.append({"id": "gb%d" % (b // per), "schemaFiles": [{"path": ["schema", "s0.graphql"], "items": tiny_schema()}],
+                    "opFiles": [{"path": ["ops", "q%d.graphql" % k], "doc": d} for k, d in enumerate(docs[b:b + per])],
+                    "configText": json.dumps(cfg), "scalarTexts": {}, "cfg": {"allowUndefined": True}, "want": {"resolvers": False}, "nameCfg": {}})
+    return out, total, len(docs)
+
+
 def run_mode(ctx, res, mode):
     vlib.build_harness()
     vlib.build_cli()
     n = (150 if ctx.quick else 4000) if mode == "C01" else (160 if ctx.quick else 2500)
     cases = [make_case(ctx, i, mode == "C02") for i in range(n)]
     cases += [fixture_case(ctx, i) for i in range(n // 5)]
+    batches, enum_total, enum_used = enumerated_batches(ctx, res)
+    cases += batches
     vlib.write_ndjson(ctx.path("cases.ndjson"), cases)
     vlib.run_harness(["typegen", vlib.CLI_BIN, ctx.path("cases.ndjson"), ctx.path("events.ndjson"), ctx.path("proj"), "12"], timeout=3000)
     events = vlib.read_ndjson(ctx.path("events.ndjson"))
+    for e in events:
+        if e["id"].startswith("gb"):
+            e["ev"] = "TypeGenBatch"
+            e.pop("resolversTs", None)
     o = vlib.validate_trace("Trace_C01", "Trace_C01.cfg", events, workdir=ctx.work, timeout=3400, xmx="3g", extra_env={"MODE": mode, "TIER": ctx.tier})
     res.add_trace(o)
     discards = [s for s in o.stats if "discard" in s]
@@ -122,12 +202,20 @@ def run_mode(ctx, res, mode):
                 "document (execgen: the same response key selected repeatedly - directly, in inline fragments with and without type condition, in "
                 "named fragments - with different sub-selections and @skip/@include on literals and Boolean variables, aliases, __typename, "
                 "interfaces / unions; docgen2: arguments, variables, deeper nesting); Validate.tla confirms validity (else discard), the real CLI "
-                "must accept and generate; %s. Non-trivial = distinct accepted document." %
-                (len(cases), "for every operation and fragment TLC enumerates Responses(X, sigma) for every runtime type and every assignment of the "
+                "must accept and generate; %s. Spec->impl: Gen_C01.tla's builder state graph is every document with <= %d selection nodes over a "
+                "tiny schema (interface with two implementers, list, aliases, inline fragments with / without type condition, two named fragments, "
+                "@skip / @include on variables and literals; children in every order): %d complete documents, of which %d are run (%s), batched %d "
+                "to a project and judged the same way (Trace_C01!TGenBatch; %d discarded as not valid / not merge-consistent). "
+                "Non-trivial = distinct accepted document." %
+                (len(cases) - len(batches), "for every operation and fragment TLC enumerates Responses(X, sigma) for every runtime type and every assignment of the "
                  "Boolean variables (null / non-null, list length 0 / 1, every enum value, every possible object type) and requires each to be a "
                  "member of the emitted type" if mode == "C01" else
                  "for every operation and fragment TLC enumerates RefLocal(X), perturbs every member at one position (null, absent, other atom "
-                 "kinds, other literals, list wrap / unwrap) and requires every perturbed value the emitted type admits to be in RefLocal"))
+                 "kinds, other literals, list wrap / unwrap) and requires every perturbed value the emitted type admits to be in RefLocal",
+                 3 if ctx.quick else 4, enum_total, enum_used, "all" if enum_total == enum_used else "a systematic sample chosen by the seed", 30,
+                 sum(s.get("discardedFiles", 0) for s in judged)))
+    res.extra.update({"enumerated_documents_total": enum_total, "enumerated_documents_run": enum_used,
+                      "enumerated_documents_discarded": sum(s.get("discardedFiles", 0) for s in judged)})
     ev0 = next((e for e in events if e["exit"] == 0), events[0])
     res.samples = [{"document": ev0["opFiles"][0]["doc"]["defs"][0]["sel"][:2]}]
     res.extra.update({"cases": len(cases), "definitions_judged": ndefs_ok, "definitions_beyond_bound": ndefs_beyond,
